@@ -279,6 +279,7 @@ class Broker:
         if kind == "reply_error":
             w.count_fault(f"reply_error:{req.name}:{action[1]}")
             body = self.cluster.error_body(req, action[1])
+            req.injected_error = True
             if body is None:
                 self._respond(conn, req, None, None)
             else:
@@ -309,6 +310,7 @@ class Broker:
             conn.stalled = True
             w.log.add(w.now(), "s_stall", conn.id)
             return
+        w.emit("response_body", conn, req, body, getattr(req, "injected_error", False))
         data = wire.encode_response(req, body)
         if kind == "reset_at_byte":
             w.count_fault(kind)
